@@ -563,8 +563,8 @@ reg("rechunk", 1, _gen_rechunk, lambda a, p: a,
 def _gen_merge_chunks(tp, a):
     # chunks must be a multiple of the current chunk size: the cubed shape is
     # not known to the NumPy shadow, so the multiple is resolved at cubed time
-    if a.ndim == 0:
-        return None
+    if a.ndim == 0 or a.size == 0:
+        return None  # internal helper; zero-size arrays are not a public use
     return dict(mult=[tp.randint(1, 3) for _ in range(a.ndim)])
 
 
@@ -850,6 +850,8 @@ def _searchsorted_cu(a, b, p):
 def _gen_pad(tp, a):
     if a.ndim == 0:
         return None
+    if a.size == 0 and not tp.coin(1, 8):
+        return None  # known finding zero-length-dim-zerodivision: keep the raw construct in a small fraction
     # cubed.pad supports padding on one axis only with mode constant/symmetric
     ax = tp.randint(0, a.ndim - 1)
     pw = [[0, 0] for _ in range(a.ndim)]
@@ -1213,6 +1215,10 @@ PROFILES = {
     "multi": {"unstack2": 20, "broadcast_arrays": 8, "qr": 6, "svd": 3, "stack": 8, "add": 10},
     "reduce": {"sum": 14, "mean": 8, "argred": 8, "var": 6, "cumulative": 8, "nanred": 4},
     "elemwise": {"add": 12, "multiply": 8, "negative": 6, "where": 6, "scalar_op": 6, "astype": 4},
+    "hostile": {"qr": 10, "svd": 6, "cumulative": 12, "reshape": 10, "concat": 8, "stack": 8, "groupby": 6,
+                "var": 8, "pad": 5, "map_overlap": 5, "merge_chunks": 5, "getitem": 10, "roll": 6, "rechunk": 8,
+                "argred": 6, "nanred": 5, "take": 5, "tile": 4, "repeat": 4, "broadcast_to": 4, "searchsorted": 4,
+                "unstack2": 5, "diff": 4},
 }
 
 
